@@ -2,15 +2,19 @@
 injectivity) and C10 (rejection contract): observation of the live Lark-based parsers, the model
 commands, formula-shape enumeration, string generators (word sequences, glued forms, token-level
 edits, respacing, character-level garbage) and a process pool for the implementation side.
+Also: identifier atoms per logic (random names, names containing keyword spellings in any case, keywords of the other
+logics), wide and tall formulas, a flat (preorder) formula encoding with iterative readers for results nested deeper than the
+recursion limit, non-ASCII look-alikes of ASCII letters / digits / blanks / operators, very deep inputs, and sessions
+(one parser object given a sequence with repetitions and look-alikes).
 
 All randomness comes from the `rng` argument (R.rng); the pool only maps a pure function over
 chunks of already generated inputs, so a run is deterministic given VERIF_SEED.
 """
-import os, io, re, itertools, contextlib
+import os, io, re, string, itertools, contextlib
 from common import (Q, lang_module, to_py, tree_of, langs_in, fparse, fsx, subformulas,
                     is_pl, is_ctl_state, is_ctl_path, is_ltl_path, is_ltl_state,
                     rand_ctl, rand_path, rand_ctls_state, rand_pl, UNARY, BINARY, NARY,
-                    model_batch, model_batch_parallel)
+                    model_batch, model_batch_parallel, lang_of_obj, TAG, fheight)
 
 LANGS = ('PL', 'CTLS', 'CTL', 'LTL')
 # identifier-style, non-reserved atoms; those starting like a keyword (or/and/U/R/X/A/true) are the risky ones
@@ -74,21 +78,26 @@ class _Broken(object):
         raise RuntimeError('Parser() cannot be constructed: ' + self.why)
 
 
-def observe(L, s):
+def observe(L, s, parser=None, flat_result=False):
     """outcome of <L>.Parser()(s) on the live library:
        ('ok', tree, langs)                  a formula; tree via class names, langs = modules of all its nodes
        ('okbad', text)                      returned something that is not a formula object
        ('err', kind, pos_ok, pos)           kind = 'UnexpectedToken' / 'UnexpectedCharacters' iff the exception's class IS
                                             pyModelChecking.parser.<that> (identity, not name), else 'other:<module>.<name>';
-                                            pos_ok = .pos is an int with 0 <= pos <= len(s)"""
+                                            pos_ok = .pos is an int with 0 <= pos <= len(s)
+    parser: the parser object to call (default: this process's long-lived one of language L);
+    flat_result: read the result ITERATIVELY into the preorder token list of flat() instead of a nested tuple (results
+    nested deeper than the harness's recursive readers can follow; the recursion limit is never raised)"""
     P = parsers()
     pp = P['_pp']
-    if isinstance(P[L], _Broken):
-        return ('err', 'other:' + P[L].why, False, None)
+    if parser is None:
+        parser = P[L]
+    if isinstance(parser, _Broken):
+        return ('err', 'other:' + parser.why, False, None)
     buf = io.StringIO()
     try:
         with contextlib.redirect_stdout(buf):
-            o = P[L](s)
+            o = parser(s)
     except RecursionError:
         return ('err', 'other:builtins.RecursionError', False, None)
     except Exception as e:  # noqa
@@ -109,6 +118,8 @@ def observe(L, s):
                 ok = False
         return ('err', kind, ok, pos if isinstance(pos, int) else repr(pos))
     try:
+        if flat_result:
+            return ('ok',) + flat_of_obj(o)
         return ('ok', tree_of(o), tuple(sorted(langs_in(o))))
     except Exception as e:  # noqa
         return ('okbad', '%s: %r' % (type(o).__name__, e))
@@ -142,11 +153,11 @@ def earley_chunk(items):
     return [earley_accepts(L, s) for (L, s) in items]
 
 
-def pmap(fn, items, jobs=None, chunk=None):
+def pmap(fn, items, jobs=None, chunk=None, min_parallel=400):
     """map a chunk function over items in a fork pool, order preserving"""
     items = list(items)
     jobs = jobs or JOBS
-    if len(items) < 400 or jobs <= 1:
+    if len(items) < min_parallel or jobs <= 1:
         return fn(items)
     import multiprocessing as mp
     chunk = chunk or max(50, min(4000, len(items) // (jobs * 4) + 1))
@@ -440,7 +451,8 @@ def char_mutation(rng, s):
 
 def long_inputs(rng):
     """very long / deeply nested inputs, within reason (a few thousand characters, nesting <= 450: deeper trees exceed the
-    recursion limit of the HARNESS's own readers; the parsers themselves are iterative and must not be depth-limited at all)"""
+    recursion limit of the HARNESS's own recursive readers; the parsers themselves are iterative and must not be depth-limited
+    at all - deep_inputs() has nesting 500..5000, read with observe(..., flat_result=True))"""
     out = ['(' * 150 + 'p' + ')' * 150, '(' * 150 + 'p' + ')' * 149, '(' * 150 + 'p or q' + ')' * 150,
            'not ' * 200 + 'p', '~' * 200 + 'p', 'A X ' * 100 + 'p', 'A F E G ' * 60 + 'p', 'X ' * 200 + 'p',
            ' or '.join(['p'] * 300), ' and '.join(['(p or q)'] * 150), '|'.join(['p'] * 300) + ' and q',
@@ -459,3 +471,468 @@ def long_inputs(rng):
 def special_strings():
     import parse_probe
     return list(parse_probe.SPECIAL)
+
+
+# ----------------------------------------------------------------------------------------
+# flat (preorder) encoding of formulas: iterative, so nesting depth is not limited by Python's recursion limit;
+# also the JSON form of tall formulas in replay files
+# ----------------------------------------------------------------------------------------
+def flat(t):
+    """preorder token list of a formula tuple: 'true' / 'false' / 'ap:<name>' / [tag, arity]"""
+    out, stack = [], [t]
+    while stack:
+        g = stack.pop()
+        if g[0] == 'ap':
+            out.append('ap:' + g[1])
+        elif g[0] in ('true', 'false'):
+            out.append(g[0])
+        else:
+            out.append([g[0], len(g) - 1])
+            stack.extend(reversed(g[1:]))
+    return out
+
+
+def unflat(toks):
+    """inverse of flat (iterative)"""
+    stack = []
+    for tk in reversed(list(toks)):
+        if isinstance(tk, str):
+            stack.append(('ap', tk[3:]) if tk.startswith('ap:') else (tk,))
+        else:
+            tag, k = tk
+            stack.append((tag,) + tuple(stack.pop() for _ in range(k)))
+    if len(stack) != 1:
+        raise ValueError('not a preorder token list of one formula')
+    return stack[0]
+
+
+def flat_of_obj(o):
+    """(preorder token list, sorted language names of all nodes) of a live formula object, read with an explicit stack
+    through type(x).__name__ and .subformulas() only"""
+    out, langs, stack = [], set(), [o]
+    while stack:
+        x = stack.pop()
+        langs.add(lang_of_obj(x))
+        name = type(x).__name__
+        if name == 'Bool':
+            out.append('true' if x._value else 'false')
+        elif name == 'AtomicProposition':
+            out.append('ap:' + str(x.name))
+        else:
+            subs = list(x.subformulas())
+            out.append([TAG[name], len(subs)])
+            stack.extend(reversed(subs))
+    return out, tuple(sorted(langs))
+
+
+def flat_of_sx(x):
+    """preorder token list of the driver's s-expression of a formula (nested lists from the iterative sx_parse)"""
+    out, stack = [], [x]
+    while stack:
+        g = stack.pop()
+        t = g[0]
+        if t == 't':
+            out.append('true')
+        elif t == 'f':
+            out.append('false')
+        elif t == 'a':
+            out.append('ap:' + str(g[1]))
+        else:
+            out.append([str(t), len(g) - 1])
+            stack.extend(reversed(g[1:]))
+    return out
+
+
+def mflat(toks):
+    """atom names folded like mstr (what the 8-bit model sees)"""
+    return [('ap:' + mstr(tk[3:])) if isinstance(tk, str) and tk.startswith('ap:') else list(tk) if not isinstance(tk, str) else tk
+            for tk in toks]
+
+
+def model_parse_result_flat(a):
+    return ('ok', flat_of_sx(a[1])) if a[0] == 'ok' else ('err', str(a[1]))
+
+
+def agree_flat(L, r, m):
+    """agree() for outcomes read with flat_result=True / model_parse_result_flat"""
+    if r[0] == 'ok':
+        return m[0] == 'ok' and mflat(r[1]) == m[1]
+    if r[0] == 'err':
+        return m[0] == 'err' and m[1] == 'ParserError'
+    return False
+
+
+def doc_member_flat(L, toks):
+    """the documented grammars on a preorder token list (iterative counterpart of doc_member): arities, and
+    PL: no temporal operator or quantifier; LTL: no E, A only as the root; CTL: every A/E directly above a temporal
+    operator and every temporal operator directly below an A/E (or the root: a path formula); CTLS: all operator trees"""
+    prev = None
+    for i, tk in enumerate(toks):
+        if isinstance(tk, str):
+            prev = None
+            continue
+        tag, k = tk
+        if tag in UNARY:
+            if k != 1:
+                return False
+        elif tag in BINARY:
+            if k != 2:
+                return False
+        elif tag in NARY:
+            if k < 2:
+                return False
+        else:
+            return False
+        temporal = tag in ('X', 'F', 'G', 'U', 'R')
+        if L == 'PL' and (temporal or tag in ('A', 'E')):
+            return False
+        if L == 'LTL' and (tag == 'E' or (tag == 'A' and i != 0)):
+            return False
+        if L == 'CTL':
+            if temporal and not (i == 0 or prev in ('A', 'E')):
+                return False
+            if prev in ('A', 'E') and not temporal:
+                return False
+        prev = tag
+    if L == 'CTL' and prev in ('A', 'E'):
+        return False
+    return True
+
+
+def compact(x):
+    """JSON-friendly copy of replay details: formula tuples of height > 40 are replaced by {'flat': token list}"""
+    if isinstance(x, tuple) and x and isinstance(x[0], str) and (x[0] in ('true', 'false', 'ap') or x[0] in TAG.values()) \
+            and all(isinstance(g, tuple) for g in x[1:] if x[0] != 'ap'):
+        return {'flat': flat(x)} if _height_iter(x) > 40 else x
+    if isinstance(x, dict):
+        return {k: compact(v) for k, v in x.items()}
+    if isinstance(x, (list, tuple)):
+        return [compact(v) for v in x]
+    return x
+
+
+def _height_iter(t):
+    h, stack = 0, [(t, 0)]
+    while stack:
+        g, d = stack.pop()
+        h = max(h, d)
+        if g[0] not in ('true', 'false', 'ap'):
+            stack.extend((c, d + 1) for c in g[1:])
+    return h
+
+
+# ----------------------------------------------------------------------------------------
+# identifier atoms: random names, names that contain keyword spellings in any case, keywords of OTHER logics
+# ----------------------------------------------------------------------------------------
+KEYWORDS = ('true', 'false', 'not', 'or', 'and', 'A', 'E', 'X', 'F', 'G', 'U', 'R')
+IDENT_RE = re.compile(r'[a-zA-Z_][a-zA-Z_0-9]*\Z')
+IDCH1 = string.ascii_letters + '_'
+IDCH = IDCH1 + string.digits
+# names that a sloppy lexer / preprocessing step would confuse with an operator or a constant
+RISKY_NAMES = ('isTrue', 'False_alarm', 'True', 'False', 'TRUE', 'FALSE', 'tRue', 'Not', 'NOT', 'nOt', 'Or', 'OR', 'And', 'AND',
+               'a', 'e', 'x', 'f', 'g', 'u', 'r', 'nottrue', 'trueU', 'Up', 'pU', 'pUq', 'aRb', 'XX', 'AG', 'EF', 'AU', 'EX', 'Ex',
+               'orand', 'andor', 'oror', 'notnot', 'falsefalse', 'TrueFalse', 'xTruey', 'a_or_b', 'p_and', 'U_', '_R', 'G1', 'F0',
+               '_', '__', '_1', 'p_', 'P', 'Q', 'p1q', 'A', 'E', 'X', 'F', 'G', 'U', 'R')
+
+
+def reserved_words(L):
+    """the identifier-like spellings logic L reserves: its OWN symbol table (MODEL_OPS / MODEL_SYMBOLS, compared with the
+    live modules by symbol_table_diffs).  'E' is an ordinary name in LTL, A E X F G U R are ordinary names in PL."""
+    ws = {'true', 'false'}
+    for k in MODEL_OPS[L]:
+        ws.update(w for w in MODEL_SYMBOLS[k] if IDENT_RE.match(w))
+    return ws
+
+
+def case_variant(rng, w):
+    k = rng.randrange(6)
+    if k == 0:
+        return w
+    if k == 1:
+        return w.lower()
+    if k == 2:
+        return w.upper()
+    if k == 3:
+        return w.capitalize()
+    if k == 4:
+        return w.swapcase()
+    return ''.join(c.upper() if rng.random() < 0.5 else c.lower() for c in w)
+
+
+def rand_ident(rng, L):
+    """a random name matching [a-zA-Z_][a-zA-Z_0-9]* that logic L does not reserve"""
+    res = reserved_words(L)
+    while True:
+        m = rng.random()
+        if m < 0.25:
+            a = rng.choice(IDCH1) + ''.join(rng.choice(IDCH) for _ in range(rng.choice((0, 0, 1, 1, 2, 3, 5, 8))))
+        elif m < 0.45:
+            a = case_variant(rng, rng.choice(KEYWORDS))
+        else:
+            a = ''.join(rng.choice(IDCH) for _ in range(rng.choice((0, 0, 1, 1, 2))))
+            for _ in range(rng.choice((1, 1, 1, 2))):
+                a += case_variant(rng, rng.choice(KEYWORDS + ('True', 'False')))
+                a += ''.join(rng.choice(IDCH) for _ in range(rng.choice((0, 0, 1, 1, 2))))
+        if IDENT_RE.match(a) and a not in res:
+            return a
+
+
+def ident_pool(rng, L, n_random=40):
+    """the names used for logic L in the identifier streams: the risky hand-written ones L does not reserve, every keyword
+    of another logic, and n_random random ones; sorted-unique, deterministic given rng"""
+    res = reserved_words(L)
+    pool = [a for a in RISKY_NAMES + KEYWORDS if a not in res]
+    pool += [rand_ident(rng, L) for _ in range(n_random)]
+    seen, out = set(), []
+    for a in pool:
+        if a not in seen:
+            seen.add(a)
+            out.append(a)
+    return out
+
+
+# ----------------------------------------------------------------------------------------
+# wide (n-ary connectives with many operands) and tall (long spines) formulas
+# ----------------------------------------------------------------------------------------
+def _small(rng, logic, aps, d=1):
+    """a small operand of the logic (state formula for CTL, path formula for LTL / CTL*)"""
+    if logic == 'PL':
+        return rand_pl(rng, d, aps)
+    if logic == 'CTL':
+        return rand_ctl(rng, d, aps)
+    return rand_path(rng, d, aps, quant=(logic == 'CTLS'))
+
+
+def contexts(logic):
+    """ways to embed an operand w of the logic into a bigger formula of the logic (l = a leaf)"""
+    cs = [lambda w, l: w, lambda w, l: ('not', w), lambda w, l: ('imp', w, l), lambda w, l: ('imp', l, w),
+          lambda w, l: ('or', l, w), lambda w, l: ('and', w, l, l), lambda w, l: ('not', ('not', w))]
+    if logic == 'LTL':
+        cs += [lambda w, l: ('G', w), lambda w, l: ('U', w, l), lambda w, l: ('R', l, w), lambda w, l: ('A', w), lambda w, l: ('A', ('X', w))]
+    if logic == 'CTLS':
+        cs += [lambda w, l: ('G', w), lambda w, l: ('U', w, l), lambda w, l: ('A', w), lambda w, l: ('E', ('R', l, w)), lambda w, l: ('A', ('F', w))]
+    if logic == 'CTL':
+        cs += [lambda w, l: ('A', ('G', w)), lambda w, l: ('E', ('U', w, l)), lambda w, l: ('A', ('R', l, w)), lambda w, l: ('E', ('X', w)),
+               lambda w, l: ('U', w, l), lambda w, l: ('F', w)]
+    return cs
+
+
+def wide_formulas(rng, logic, aps, n_random=24, big=(64, 150)):
+    """formulas with an or / and of 4 and more operands: every arity 4..12 for both connectives, random arities up to 40,
+    a few very wide ones; operands are leaves or small formulas of the logic, the wide node sits at the root or inside
+    another operator (contexts)"""
+    cs = contexts(logic)
+    out = []
+    arities = [(t, k) for t in ('or', 'and') for k in range(4, 13)]
+    arities += [(rng.choice(('or', 'and')), rng.randint(13, 40)) for _ in range(n_random)]
+    arities += [(t, k) for t in ('or', 'and') for k in big]
+    for i, (t, k) in enumerate(arities):
+        ops = tuple(_small(rng, logic, aps, rng.choice((0, 0, 1, 1, 2)) if k <= 40 else 0) for _ in range(k))
+        w = (t,) + ops
+        leaf = ('ap', rng.choice(aps))
+        out.append(w)
+        out.append(cs[i % len(cs)](w, leaf))
+        out.append(rng.choice(cs)(w, leaf))
+        if k <= 12:
+            # a wide node among the operands of a wide node of the other kind
+            other = 'and' if t == 'or' else 'or'
+            ops2 = [_small(rng, logic, aps, 0) for _ in range(k - 1)]
+            ops2.insert(rng.randrange(k), w)
+            out.append((other,) + tuple(ops2))
+    return out
+
+
+def spine(rng, logic, aps, height):
+    """a formula of the logic of (about) the given height: a long spine of unary operators, binary operators and n-ary
+    connectives whose other operands are leaves / small formulas, on either side of the spine (so that operand order,
+    grouping and every operator's spelling matter at every level)"""
+    f = ('ap', rng.choice(aps))
+    h = 0
+    un = {'PL': ['not'], 'LTL': ['not', 'X', 'F', 'G'], 'CTLS': ['not', 'X', 'F', 'G', 'A', 'E'], 'CTL': ['not']}[logic]
+    bi = ['imp'] if logic in ('PL', 'CTL') else ['imp', 'U', 'R']
+    p_unary = rng.choice((0.5, 0.7, 0.9))
+    while h < height:
+        side = _small(rng, logic, aps, rng.choice((0, 0, 0, 1)))
+        r = rng.random()
+        if logic == 'CTL' and r < 0.5 and h + 2 <= height:
+            q, o = rng.choice('AE'), rng.choice('XFGUR')
+            if o in 'XFG':
+                f = (q, (o, f))
+            else:
+                f = (q, (o, f, side) if rng.random() < 0.5 else (o, side, f))
+            h += 2
+            continue
+        if r < p_unary:
+            f = (rng.choice(un), f)
+        elif rng.random() < 0.5:
+            b = rng.choice(bi)
+            f = (b, f, side) if rng.random() < 0.5 else (b, side, f)
+        else:
+            k = rng.choice((2, 2, 3, 5))
+            ops = [_small(rng, logic, aps, 0) for _ in range(k - 1)]
+            ops.insert(rng.randrange(k), f)
+            f = (rng.choice(('or', 'and')),) + tuple(ops)
+        h += 1
+    if logic == 'LTL' and rng.random() < 0.3:
+        # LTL: A only at the root, over a path formula
+        f = ('A', f)
+    return f
+
+
+# ----------------------------------------------------------------------------------------
+# C10: non-ASCII characters that a regex / str method treats like ASCII letters, digits, blanks or operators
+# ----------------------------------------------------------------------------------------
+UNI_DIGITS = ['\u0663', '\u06f3', '\u0968', '\u09e9', '\u0e53', '\u1049', '\uff11', '\uff19', '\U0001d7d9', '\U0001d7ce', '\U0001e950']   # Nd: \d, isdigit
+UNI_NUMERIC = ['\xb2', '\xb9', '\xbd', '\u2460', '\u2167', '\u2082', '\u4e09']   # isdigit / isnumeric, not \d
+UNI_FOLD = ['\u017f', '\u212a', '\u0130', '\u0131']   # [a-z] under re.IGNORECASE
+UNI_LETTERS = ['\xe9', '\xdf', '\xaa', '\xb5', '\xc5', '\u03bb', '\u0430', '\u0440', '\u0410', '\uff21', '\uff50', '\uff55', '\u1d00', '\u212b', '\u2126', '\ufb01', '\u0101', '\u4e2d', '\U0001d41a', '\U00010400']   # \w / isalpha / NFKC or lookalikes of ASCII letters
+UNI_JOIN = ['\u203f', '\u2040', '\ufe33', '\uff3f', '\u0301', '\u200d', '\u200c', '\u200b', '\xad', '\ufeff', '\xb7', '\u2118']   # isidentifier continue / invisible
+UNI_SPACE = ['\x0b', '\x1c', '\x1d', '\x1e', '\x1f', '\x85', '\xa0', '\u1680', '\u2000', '\u2003', '\u2009', '\u2028', '\u2029', '\u202f', '\u205f', '\u3000']   # str.strip / \s, not WS
+UNI_OPS = ['\xac', '\u2227', '\u2228', '\u2192', '\u27f6', '\u21d2', '\uff5e', '\uff06', '\uff5c', '\uff08', '\uff09', '\u201c', '\u201d', '\u2212', '\u2013', '\uff02', '\u02dc']   # lookalikes of ~ & | ( ) " - -->
+UNI_WORDCH = UNI_DIGITS + UNI_NUMERIC + UNI_FOLD + UNI_LETTERS + UNI_JOIN
+UNI_ALL = UNI_WORDCH + UNI_SPACE + UNI_OPS
+UNI_TEMPLATES = ('%s', 'p%s', '%sp', 'p%sq', '_%s', '%s1', 'not p%s', 'p or q%s', '%s or p', 'A G (x%s --> F y)', 'E F %selvin', 'p U mi%st',
+                 '(%s)', 'p %s q', 'p%s or q', '"%s"', '"a%sb" or q', 'A(p%sU q)', 'true%s', '%strue', 'no%s p', 'p o%s q')
+
+
+def unicode_fixed():
+    """every character of UNI_ALL in every template (alone, inside / at either end of a name, next to a keyword, as a blank,
+    inside a quoted atom - the only legal place)"""
+    return [t.replace('%s', u) for u in UNI_ALL for t in UNI_TEMPLATES]
+
+
+def unicode_mutation(rng, s):
+    """one non-ASCII character put into a valid string: inside / at an end of a name or keyword, instead of a blank, or
+    instead of an operator character"""
+    k = rng.random()
+    words = [m for m in re.finditer(r'[A-Za-z_0-9]+', s)]
+    if k < 0.55 and words:
+        m = rng.choice(words)
+        i = rng.randint(m.start(), m.end())
+        u = rng.choice(UNI_WORDCH)
+        if rng.random() < 0.6 or i == m.end():
+            return s[:i] + u + s[i:]
+        return s[:i] + u + s[i + 1:]
+    blanks = [i for i, c in enumerate(s) if c == ' ']
+    if k < 0.8 and blanks:
+        i = rng.choice(blanks)
+        return s[:i] + rng.choice(UNI_SPACE) + s[i + 1:]
+    if k < 0.9:
+        return rng.choice((lambda u: u + s, lambda u: s + u))(rng.choice(UNI_SPACE + UNI_JOIN))
+    ops = [i for i, c in enumerate(s) if c in '()~|&->"']
+    if ops:
+        i = rng.choice(ops)
+        return s[:i] + rng.choice(UNI_OPS) + s[i + 1:]
+    return s + rng.choice(UNI_ALL)
+
+
+def unicode_words(rng, n):
+    """a short word sequence in which one or two words are names with non-ASCII characters"""
+    ws = [rng.choice(WORDS17) for _ in range(n)]
+    for _ in range(rng.choice((1, 1, 2))):
+        a = ''.join(rng.choice(IDCH) for _ in range(rng.randint(0, 3)))
+        i = rng.randint(0, len(a))
+        a = a[:i] + rng.choice(UNI_WORDCH) + a[i:]
+        ws[rng.randrange(n)] = a
+    return ' '.join(ws)
+
+
+def case_words(rng, n):
+    """a word sequence over the 17 words in which some keywords are written in another case (all of them plain names)"""
+    return ' '.join(case_variant(rng, w) if rng.random() < 0.4 else w for w in (rng.choice(WORDS17) for _ in range(n)))
+
+
+# ----------------------------------------------------------------------------------------
+# C10: inputs nested far deeper than Python's recursion limit (the LALR parsers are iterative: no depth limit)
+# ----------------------------------------------------------------------------------------
+def deep_inputs(rng):
+    """strings with nesting 500..5000; their results are read iteratively (observe(..., flat_result=True))"""
+    out = ['not ' * 1200 + 'p', '~' * 5000 + 'p', 'not ' * 999 + 'p', 'not ' * 1001 + 'q', 'E G ' * 600 + 'q', 'A F ' * 800 + 'p',
+           'A X ' * 1000 + 'true', 'X ' * 1500 + 'p', 'G F ' * 900 + 'q', 'A ' + 'X ' * 1100 + 'p',
+           '(' * 2000 + 'p' + ')' * 2000, '(' * 2000 + 'p' + ')' * 1999, '(' * 1999 + 'p' + ')' * 2000, '(' * 1500 + 'p or q' + ')' * 1500,
+           '(p --> ' * 600 + 'q' + ')' * 600, '(' * 600 + 'p' + ' --> q)' * 600, '(p or ' * 1500 + 'q' + ')' * 1500, '(p and q and ' * 700 + 'q' + ')' * 700,
+           'A(p U ' * 500 + 'q' + ')' * 500, 'E(' * 500 + 'p' + ' R q)' * 500, '(p U ' * 800 + 'q' + ')' * 800, 'A(p U ' * 500 + 'q' + ')' * 499,
+           'not (' * 700 + 'p' + ')' * 700, '~(' * 700 + 'p' + ')' * 701, 'not ' * 1200 + 'p q', 'not ' * 1200, 'not ' * 1200 + '#', 'not ' * 1200 + '"a b"',
+           'A G (p --> ' * 400 + 'q' + ')' * 400, 'G (p --> F ' * 400 + 'q' + ')' * 400]
+    un = {'PL': ['not ', '~', '~ '], 'LTL': ['not ', '~', 'X ', 'F ', 'G '], 'CTLS': ['not ', '~', 'X ', 'F ', 'G ', 'A ', 'E '],
+          'CTL': ['not ', '~', 'A X ', 'E F ', 'A G ', 'E X ']}
+    for L in LANGS:
+        for _ in range(3):
+            n = rng.randint(500, 2500)
+            body = rng.choice(('p', 'q', 'true', '(p or q)', '"a b"', 'Until'))
+            out.append(''.join(rng.choice(un[L]) for _ in range(n)) + body)
+        n = rng.randint(500, 1500)
+        out.append(''.join(rng.choice(un[L]) + '(' for _ in range(n)) + 'p' + ')' * n)
+    return out
+
+
+def observe4_flat(s):
+    return tuple(observe(L, s, flat_result=True) for L in LANGS)
+
+
+def observe4_flat_chunk(strings):
+    return [observe4_flat(s) for s in strings]
+
+
+# ----------------------------------------------------------------------------------------
+# C10: the same parser object used again and again (a parser must not remember anything about earlier calls)
+# ----------------------------------------------------------------------------------------
+def history_variant(rng, s):
+    """a string that a lossy normalisation (strip, blank collapsing, case folding, NFKC) would identify with s"""
+    k = rng.randrange(10)
+    if k == 0:
+        return s.strip()
+    if k == 1:
+        return rng.choice((' ', '\n', '\t', '  ')) + s
+    if k == 2:
+        return s + rng.choice((' ', '\n', '\t', '\r\n'))
+    if k == 3:
+        return rng.choice(UNI_SPACE) + s
+    if k == 4:
+        return s + rng.choice(UNI_SPACE)
+    if k == 5:
+        return ' '.join(s.split())
+    if k == 6:
+        return s.lower()
+    if k == 7:
+        return rng.choice((s.upper(), s.swapcase()))
+    if k == 8:
+        return s.replace(' ', rng.choice(('  ', '\t', '\xa0', '')))
+    letters = [i for i, c in enumerate(s) if c in string.ascii_letters]
+    if not letters:
+        return s + '\ufeff'
+    i = rng.choice(letters)
+    return s[:i] + chr(ord(s[i]) - ord('!') + 0xff01) + s[i + 1:]     # the fullwidth form of that letter
+
+
+def session(rng, base):
+    """the sequence of strings one fresh set of parser objects is given: every base string twice in a row, then two
+    look-alikes, then again; at the end all base strings a further time in another order"""
+    seq = []
+    for s in base:
+        seq += [s, s, history_variant(rng, s), history_variant(rng, s), s]
+    again = list(base)
+    rng.shuffle(again)
+    return seq + again
+
+
+def fresh_parser(L):
+    """a new parser object of logic L"""
+    try:
+        return lang_module(L).Parser()
+    except Exception as e:  # noqa
+        return _Broken('%s.Parser() cannot be constructed: %s.%s' % (L, type(e).__module__, type(e).__name__))
+
+
+def fresh_parsers():
+    return {L: fresh_parser(L) for L in LANGS}
+
+
+def observe_session(seq):
+    """outcomes [(per language) per string] of parsing the sequence on ONE fresh parser object per language"""
+    P = fresh_parsers()
+    return [tuple(observe(L, s, parser=P[L]) for L in LANGS) for s in seq]
+
+
+def observe_session_chunk(seqs_):
+    return [observe_session(q) for q in seqs_]
